@@ -303,7 +303,7 @@ fn tv(tag: &str, ecu: &[u8; 4], vmm: u8, apid: &[u8; 4], ctid: &[u8; 4], a: A) -
 }
 
 const RX_BASE: u64 = 1_700_000_000_000_000;
-fn build(tp: &T, pos: usize) -> DltMessage {
+pub fn build(tp: &T, pos: usize) -> DltMessage {
     let mut htyp = VERS1 | WEID;
     let mut len = 8usize;
     if tp.with_tmsp {
@@ -335,7 +335,7 @@ fn build(tp: &T, pos: usize) -> DltMessage {
         lifecycle: 1 + (pos as u32 % 3),
     }
 }
-fn compose(ts: &[&T]) -> (Vec<String>, Vec<DltMessage>) {
+pub fn compose(ts: &[&T]) -> (Vec<String>, Vec<DltMessage>) {
     (ts.iter().map(|x| x.tag.clone()).collect(), ts.iter().enumerate().map(|(i, x)| build(x, i)).collect())
 }
 
